@@ -554,7 +554,7 @@ func pedersenAll(r *runner, c counts) {
 	for i := 0; i < c.ped; i++ {
 		pedersenCase(r, c, k, i)
 		pedersenCase(r, c, b, i)
-		if i%3 == 0 {
+		if i%4 == 0 {
 			pedersenCase(r, c, p, i)
 			pedersenCase(r, c, e, i)
 		}
